@@ -1,0 +1,45 @@
+//go:build verif
+
+package server
+
+import (
+	"context"
+	"log/slog"
+	"net"
+	"strconv"
+
+	"github.com/scionproto/scion/pkg/daemon"
+
+	"example.com/scion-time/base/logbase"
+	"example.com/scion-time/net/ntske"
+	"example.com/scion-time/net/scion"
+	"example.com/scion-time/net/udp"
+)
+
+// VerifC13StartSCIONServer starts the SCION listener goroutines exactly like
+// StartSCIONServer, except that every goroutine's DRKey fetcher is built on the given
+// daemon connector instead of one obtained from a daemon address.
+func VerifC13StartSCIONServer(ctx context.Context, log *slog.Logger,
+	dc daemon.Connector, localHost *net.UDPAddr, dscp uint8, provider *ntske.Provider) {
+	mtrcs := newSCIONServerMetrics()
+
+	if localHost.Port == scion.EndhostPort {
+		logbase.FatalContext(ctx, log, "invalid listener port",
+			slog.Int("port", localHost.Port))
+	}
+
+	lc := net.ListenConfig{
+		Control: udp.SetsockoptReuseAddrPort,
+	}
+	for _, localHostPort := range []int{localHost.Port, scion.EndhostPort} {
+		address := net.JoinHostPort(localHost.IP.String(), strconv.Itoa(localHostPort))
+		for range scionServerNumGoroutine {
+			fetcher := scion.NewFetcher(dc)
+			conn, err := lc.ListenPacket(ctx, "udp", address)
+			if err != nil {
+				logbase.FatalContext(ctx, log, "failed to listen for packets", slog.Any("error", err))
+			}
+			go runSCIONServer(ctx, log, mtrcs, conn.(*net.UDPConn), localHost.Zone, localHost.Port, dscp, fetcher, provider)
+		}
+	}
+}
